@@ -102,6 +102,9 @@ def accuracy_case(c):
     kw = {}
     if c.get("cutoff"): kw["cutoff"] = c["cutoff"]
     if c.get("tilt"): kw["tilt"] = tuple(c["tilt"])
+    if c.get("tilt") and c.get("tilt_axis"):
+        from acryo.tilt import single_axis, dual_axis
+        kw["tilt"] = single_axis(tuple(c["tilt"]), c["tilt_axis"]) if c["tilt_axis"] in ("x", "y") else dual_axis(tuple(c["tilt"]), tuple(c["tilt"]))
     if c.get("multi"):
         # several templates and a rotation search at once: an unrotated displaced copy of template `multi[0]` must come back with
         # that label, the identity rotation and the displacement
@@ -176,6 +179,14 @@ DIRECTED = [
          rotmask={"particle": True, "offset": [4.0, -3.0, 3.0], "radius": 5.0, "rotations": [[30, 30], [30, 30], [0, 0]]}),
     dict(model="zncc", shape=[23, 23, 23], max_shifts=[3.0, 3.0, 3.0], d=[0.0, 0.0, 0.0], seed=36, cutoff=None, tilt=None, rotvec=None, dkind="rotmask",
          rotmask={"particle": True, "offset": [-3.5, 4.0, 0.0], "radius": 5.0, "rotations": [[90, 90], [0, 0], [0, 0]]}),
+    # FSC with negative whole-pixel displacements in a range of 3 (every lag of the phase table matters, not only 0 and +-s)
+    dict(model="fsc", shape=[16, 16, 16], max_shifts=[3.0, 3.0, 3.0], d=[-1.0, -3.0, 2.0], seed=41, cutoff=None, tilt=None, rotvec=None, dkind="integer"),
+    dict(model="fsc", shape=[17, 16, 15], max_shifts=[3.0, 2.0, 3.0], d=[-2.0, -1.0, -1.0], seed=42, cutoff=None, tilt=None, rotvec=None, dkind="integer"),
+    # tilt models about x, about y and dual, with a molecule orientation
+    dict(model="zncc", shape=[18, 18, 18], max_shifts=[2.0, 2.0, 2.0], d=[1.0, -1.5, 0.5], seed=43, cutoff=None, tilt=[-60.0, 60.0], tilt_axis="x", rotvec=None, dkind="tilt"),
+    dict(model="pcc", shape=[18, 17, 19], max_shifts=[2.0, 2.0, 2.0], d=[-1.0, 1.0, 1.5], seed=44, cutoff=None, tilt=[-50.0, 65.0], tilt_axis="x", rotvec=[0.2, -0.1, 0.3], dkind="tilt"),
+    dict(model="ncc", shape=[18, 18, 18], max_shifts=[2.0, 2.0, 2.0], d=[0.5, 2.0, -1.0], seed=45, cutoff=None, tilt=[-60.0, 60.0], tilt_axis="y", rotvec=None, dkind="tilt"),
+    dict(model="zncc", shape=[18, 18, 18], max_shifts=[2.0, 2.0, 2.0], d=[-1.5, 0.5, 1.0], seed=46, cutoff=None, tilt=[-60.0, 50.0], tilt_axis="dual", rotvec=[0.0, 0.3, 0.0], dkind="tilt"),
     # reproducer of the recorded finding C04-fsc-half-integer-lag
     dict(model="fsc", shape=[14, 14, 14], max_shifts=[1.0, 1.0, 1.0], d=[0.35, 0.45, -0.1], seed=2098463371, cutoff=None, tilt=None, rotvec=None, dkind="small"),
 ]
